@@ -37,11 +37,11 @@ theorem evalTokens_toks (P : Prims) (env : Env) (e : Expr) :
   unfold evalTokens; rw [parseTokensE_toks]
 
 /-- the example tree: `a.b[1] | f: 'x"', -2 and (c or d.e contains "s")` -/
-def exTree : Expr :=
+def rtExTree : Expr :=
   .and_ (.filter (.index (.prop (.var [97]) [98]) (.lit (.int .int 1))) [102] [.lit (.str [120, 34]), .lit (.int .int (-2))])
     (.or_ (.var [99]) (.rel .contains (.prop (.var [100]) [101]) (.lit (.str [115]))))
 
 /-- its canonical text -/
-def exText : Bytes :=
+def rtExText : Bytes :=
   [97, 46, 98, 91, 49, 93, 32, 124, 32, 102, 58, 32, 39, 120, 34, 39, 44, 32, 45, 50, 32, 97, 110, 100, 32, 40, 99, 32,
    111, 114, 32, 100, 46, 101, 32, 99, 111, 110, 116, 97, 105, 110, 115, 32, 34, 115, 34, 41]
